@@ -152,6 +152,32 @@ def run(ctx):
     # them garbage-collected in between: every live waveform must follow every change of NI_LineNames -------------------
     import gc
     from nitypes.waveform import ExtendedPropertyDictionary
+    # a caller-owned plain dict (or dictionary object) handed to several waveforms with the default copy_extended_properties=True:
+    # each waveform has its own names; later changes of the caller's mapping or of one waveform do not reach the others
+    for h in range(60 if ctx.quick else 1500):
+        n = rng.randint(1, 3)
+        src = {LN: ", ".join(rng.choice(ALPHA[:8]) for _ in range(n))}
+        if rng.random() < 0.5:
+            src = ExtendedPropertyDictionary(src)
+        ws = [DigitalWaveform(2, n, extended_properties=src) for _ in range(rng.randint(2, 3))]
+        for w in ws:
+            if rng.random() < 0.7:
+                [w.signals[i].name for i in range(n)]
+        for step in range(rng.randint(1, 5)):
+            op = rng.choice(["caller-set", "caller-del", "write", "set", "read"])
+            if op == "caller-set":
+                src[LN] = ", ".join("c" + str(step) for _ in range(n))
+            elif op == "caller-del" and LN in src:
+                del src[LN]
+            elif op == "write":
+                rng.choice(ws).signals[rng.randrange(n)].name = "w" + str(step)
+            elif op == "set":
+                rng.choice(ws).extended_properties[LN] = ", ".join("s" + str(step) for _ in range(n))
+            else:
+                w = rng.choice(ws); [w.signals[i].name for i in range(n)]
+            if not all(check(w, f"same mapping for several waveforms / {op}") for w in ws):
+                break
+        ctx.case(("same-mapping", h, n))
     for h in range(80 if ctx.quick else 2500):
         n = rng.randint(1, 4)
         epd = ExtendedPropertyDictionary({LN: ", ".join(rng.choice(ALPHA[:8]) for _ in range(n))})
